@@ -14,7 +14,7 @@ fn cdist(a: u32, b: u32) -> u64 {
     (b as u64 + M - a as u64) % M
 }
 
-//# id=mod_lt.exact props=C12 kind=complete pair=modcmp.mod_lt.exact
+//# id=mod_lt.exact fns=mod_lt+mod_gt props=C12 kind=complete pair=modcmp.mod_lt.exact
 #[cfg_attr(kani, kani::proof)]
 #[cfg_attr(vx_replay, test)]
 fn h_mod_lt_exact() {
@@ -25,7 +25,7 @@ fn h_mod_lt_exact() {
     assert_eq!(mod_gt(b, a), 0 < d && d < H);
 }
 
-//# id=mod_leq.agrees_with_circular_order props=C12 kind=complete pair=modcmp.mod_leq.agrees_with_circular_order,modcmp.mod_leq.consistent_with_strict
+//# id=mod_leq.agrees_with_circular_order fns=mod_leq props=C12 kind=complete pair=modcmp.mod_leq.agrees_with_circular_order,modcmp.mod_leq.consistent_with_strict
 #[cfg_attr(kani, kani::proof)]
 #[cfg_attr(vx_replay, test)]
 fn h_mod_leq() {
@@ -40,7 +40,7 @@ fn h_mod_leq() {
     assert_eq!(mod_leq(a, b), mod_lt(a, b) || a == b);
 }
 
-//# id=mod_geq.agrees_with_circular_order props=C12 kind=complete pair=modcmp.mod_geq.agrees_with_circular_order,modcmp.mod_geq.consistent_with_strict
+//# id=mod_geq.agrees_with_circular_order fns=mod_geq props=C12 kind=complete pair=modcmp.mod_geq.agrees_with_circular_order,modcmp.mod_geq.consistent_with_strict
 #[cfg_attr(kani, kani::proof)]
 #[cfg_attr(vx_replay, test)]
 fn h_mod_geq() {
@@ -53,7 +53,7 @@ fn h_mod_geq() {
     assert_eq!(mod_geq(a, b), mod_gt(a, b) || a == b);
 }
 
-//# id=mod_bounded.agrees_with_circular_order props=C12 kind=complete pair=modcmp.mod_bounded.exact,modcmp.mod_bounded.agrees_with_circular_order
+//# id=mod_bounded.agrees_with_circular_order fns=mod_bounded props=C12 kind=complete pair=modcmp.mod_bounded.exact,modcmp.mod_bounded.agrees_with_circular_order
 #[cfg_attr(kani, kani::proof)]
 #[cfg_attr(vx_replay, test)]
 fn h_mod_bounded() {
@@ -68,7 +68,7 @@ fn h_mod_bounded() {
     assert_eq!(mod_bounded(a, ab, b, bc, c), lo_ok && hi_ok);
 }
 
-//# id=translation_invariance props=C12 kind=complete pair=modcmp.lemma.lemma_circ_shift,modcmp.lemma.lemma_arc_shift
+//# id=translation_invariance fns=mod_lt+mod_leq+mod_gt+mod_geq+mod_bounded props=C12 kind=complete pair=modcmp.lemma.lemma_circ_shift,modcmp.lemma.lemma_arc_shift
 #[cfg_attr(kani, kani::proof)]
 #[cfg_attr(vx_replay, test)]
 fn h_shift_invariance() {
